@@ -401,9 +401,14 @@ def rule_shapes(chk, fb):
             ok = len(slices) == 2 and a0 == {slices[0]} and a1 == {slices[1]}
             detail = "IV = H(%s || %s); parameters (salt, block key) = %s" % (sorted(a0), sorted(a1), slices)
         chk.ob(rd, "iv:shape", ok, where=fb.loc(iv), detail=detail)
-        pad = any(s["k"] == "assign" and any(o.get("i") == OC.IV_PAD_BYTE for o in __import__("facts").rv_operands(s["rv"])) for bl in b["blocks"] for s in bl["s"]) or any(
-            any(a.get("i") == OC.IV_PAD_BYTE for a in t["args"]) for _, t in fb.calls_in(b)
-        )
+        def pads(bb):
+            return any(s["k"] == "assign" and any(o.get("i") == OC.IV_PAD_BYTE for o in __import__("facts").rv_operands(s["rv"])) for bl in bb["blocks"] for s in bl["s"]) or any(
+                any(a.get("i") == OC.IV_PAD_BYTE for a in t["args"]) for _, t in fb.calls_in(bb)
+            )
+
+        # ... in create_iv itself or in the private sizing helper the hash result is handed to
+        sizing = [fb.mir[t["fn"]] for _, t in fb.calls_in(b) if t.get("fn", "").startswith(pre) and t["fn"] in fb.mir and not t["fn"].endswith(("::hash", "::hmac")) and fb.mir[t["fn"]].get("vis") != "pub"]
+        pad = pads(b) or any(pads(x) for x in sizing)
         chk.ob(rd, "iv:pad", pad, where=fb.loc(iv), detail="short IVs are padded with 0x36: %s" % pad)
     cp = pre + "crypt_package"
     if cp in fb.mir:
@@ -430,6 +435,9 @@ def rule_shapes(chk, fb):
                         inc1 = any(d_[0] == "rv" and d_[3]["k"] == "use" and "p" in d_[3]["op"] and any(dd[0] == "rv" and dd[3]["k"] == "bin" and dd[3]["op"].startswith("Add") and dd[3]["b"].get("i") == 1 and dd[3]["a"].get("p", {}).get("l") == l for dd in fl.defs.get(d_[3]["op"]["p"]["l"], [])) for d_ in ds)
                         if init0 and inc1 and _derives_from_local(fl, b, ct["args"][0], l):
                             ok_ctr = True
+                # ... or the position handed out by Iterator::enumerate (0, 1, 2, ... by definition): component 0 of its item
+                if any(a[0] == "call" and "Enumerate" in a[1] and a[1].endswith("::next") for a in ca) and ("field", "tuple", "0") in ca and ("field", "tuple", "1") not in ca:
+                    ok_ctr = True
                 ok_iv = True
         chk.ob(rd, "segment:iv-from-index", ok_iv and ok_ctr, where=fb.loc(cp), detail="segment IV derives from LE32(segment index), index starts at 0 and advances by 1: %s" % (ok_iv and ok_ctr))
         # length prefix
